@@ -8,6 +8,8 @@ import (
 	"path/filepath"
 	"regexp"
 	"runtime"
+	"runtime/debug"
+	"runtime/pprof"
 	"sort"
 	"strings"
 	"time"
@@ -197,6 +199,7 @@ func main() {
 	if len(os.Args) < 2 {
 		fatal("usage: symgo run|check|selftest ...")
 	}
+	debug.SetGCPercent(400)
 	if d := os.Getenv("VERIF_DIR"); d != "" {
 		verifDir = d
 	}
@@ -210,7 +213,13 @@ func main() {
 		to := fs.Duration("timeout", 10*time.Minute, "deadline")
 		solver := fs.String("solver", "z3-new", "z3|z3-new|cvc5")
 		verbose := fs.Bool("v", false, "verbose")
+		prof := fs.String("cpuprofile", "", "write cpu profile")
 		fs.Parse(os.Args[2:])
+		if *prof != "" {
+			f, _ := os.Create(*prof)
+			pprof.StartCPUProfile(f)
+			defer pprof.StopCPUProfile()
+		}
 		l := load()
 		fmt.Fprintf(os.Stderr, "loaded in %v; harnesses: %v\n", l.loadTime, l.harnesses)
 		hs := runEngine(l, RunConfig{Pattern: regexp.MustCompile(*pat), Tier: *tier, Workers: *workers, MaxPaths: *maxp, Timeout: *to, Solver: *solver, WitnessN: 4, Verbose: *verbose})
